@@ -15,6 +15,7 @@ import (
 	"crypto/x509"
 	"encoding/json"
 	"fmt"
+	"google.golang.org/grpc/credentials"
 	"io"
 	"math/big"
 	"math/rand"
@@ -73,11 +74,19 @@ func selfSigned(pub any, priv any) []byte {
 // a full connection attempt: handshake on both sides, then one application-data round trip
 // (with TLS 1.3 the client only learns of a rejected client certificate when it reads)
 func tryConnect(sPriv, cPriv ed25519.PrivateKey, sAllow, cAllow []ed25519.PublicKey) (bool, string) {
-	sCreds, err := mtls.NewTransportCredentials(sPriv, sAllow)
+	// both constructors of the package: NewTransportCredentials (from the raw key) and NewTransportSigner (from a
+	// crypto.Signer), alternating by the parity of the key material so that every pairing occurs
+	mk := func(priv ed25519.PrivateKey, allow []ed25519.PublicKey) (credentials.TransportCredentials, error) {
+		if len(priv) > 0 && priv[len(priv)-1]%2 == 0 {
+			return mtls.NewTransportSigner(priv, allow)
+		}
+		return mtls.NewTransportCredentials(priv, allow)
+	}
+	sCreds, err := mk(sPriv, sAllow)
 	if err != nil {
 		return false, "server creds: " + err.Error()
 	}
-	cCreds, err := mtls.NewTransportCredentials(cPriv, cAllow)
+	cCreds, err := mk(cPriv, cAllow)
 	if err != nil {
 		return false, "client creds: " + err.Error()
 	}
